@@ -8,9 +8,9 @@ HARNESSES = [
     dict(name="int", pkg="./internal/pppoe/", test="TestVerifC04Int",
          files=[("internal/pppoe/zz_verif_c04_int_test.go", "harness/C04/zz_verif_c04_int_test.go")]),
 ]
-# repaired = /repo HEAD + fixes/C04_hasync_id_in_use.patch (the one open finding); no_ha_check = /repo HEAD.
-# All earlier findings are fixed in /repo (b12b708, 731c2cc, 46cb3dc, 9893c59): a regression to any of them is a VIOLATION.
-VARIANTS = ["repaired", "no_ha_check"]
+# one model variant: repaired = /repo HEAD.  All seven findings are fixed there (b12b708, 731c2cc, 46cb3dc, 9893c59,
+# 9d39845): a regression to any of them is a VIOLATION.
+VARIANTS = ["repaired"]
 MODEL_NEEDS_IMPL = True   # the wall-clock second the implementation ran in is read from its output
 RULE = ("ck: cookie cases = one Generate (compared byte for byte) + Validate queries: the 37 truncations, an extension, "
         "every byte flipped, tuple permutations (other MAC, MAC length 0/5/7/8, VLANs swapped/shifted), forged cookies "
@@ -554,25 +554,6 @@ def classify(case, impl, model):
         if x != y:
             return "P", "op #%d %s: implementation %s, model (repaired) %s" % (i, ops[i] if i < len(ops) else "?", x, y)
     return "P", "final session table differs: impl %r model %r" % (idump[:200], mdump[:200])
-
-
-def signature(case, impl, models):
-    """the one open finding: restoreFromHASync installs a peer-allocated id that is 0 or in use"""
-    if not case.startswith("tb"):
-        return None
-    io, _ = split_tb(impl)
-    mo, _ = split_tb(models["repaired"])
-    if io is None or mo is None:
-        return None
-    ops = tb_ops(case)
-    for i, (x, y) in enumerate(zip(io, mo)):
-        if x == y:
-            continue
-        kind = ops[i].split("/")[0] if i < len(ops) else "?"
-        if kind == "H" and x.startswith("synced:") and y == "none":
-            return "ha-restore-overwrites-live-session-id"
-        return "other-op-%s" % kind
-    return "final-table-only"
 
 
 def shrink(case):
